@@ -79,9 +79,36 @@ struct World {
     violations: Vec<String>,
     spawner: Spawner<'static>,
     wakes: u64,
+    /// completed tasks popped from the reference queue (woken through a stale waker)
+    stale_pops: u64,
+    completions: u64,
 }
 
 impl World {
+    /// Called at the start of every poll: the polled task must be the head of the reference
+    /// queue (completed tasks woken through stale wakers are skipped by the executor silently).
+    fn model_pop_for_poll(&mut self, id: usize) {
+        loop {
+            match self.model.pop_front() {
+                Some(t) if t != id && self.tasks[t].done => {
+                    self.stale_pops += 1;
+                }
+                Some(t) if t == id => return,
+                Some(t) => {
+                    self.violations.push(format!(
+                        "task {id} polled but the head of the FIFO reference queue is task {t}"
+                    ));
+                    return;
+                }
+                None => {
+                    self.violations.push(format!(
+                        "task {id} polled although it is not in the reference queue (not woken since its last poll, or queued twice)"
+                    ));
+                    return;
+                }
+            }
+        }
+    }
     fn model_wake(&mut self, t: usize) {
         self.wakes += 1;
         if !self.model.contains(&t) {
@@ -119,6 +146,7 @@ impl Future for TaskFut {
         {
             let mut w = this.world.borrow_mut();
             w.polled.push(id);
+            w.model_pop_for_poll(id);
             if w.tasks[id].done {
                 w.violations.push(format!("task {id} polled after it completed"));
                 return Poll::Ready(0);
@@ -136,6 +164,7 @@ impl Future for TaskFut {
         w.in_poll = None;
         if let Poll::Ready(_) = r {
             w.tasks[id].done = true;
+            w.completions += 1;
             // the forwarding wrapper now sends the value, waking the parent if it is waiting
             if let Some(p) = w.tasks[id].parent {
                 if w.tasks[p].awaiting == Some(id) {
@@ -181,19 +210,26 @@ impl TaskFut {
                 Act::Wait(k) => {
                     let mut w = self.world.borrow_mut();
                     if !w.chans[k as usize].signalled {
-                        w.chans[k as usize].waiters.push((id, cx.waker().clone()));
+                        let waker = cx.waker().clone();
+                        let ws = &mut w.chans[k as usize].waiters;
+                        match ws.iter_mut().find(|e| e.0 == id) {
+                            Some(e) => e.1 = waker,
+                            None => ws.push((id, waker)),
+                        }
                         w.tasks[id].blocked_on = Some(act);
                         return Poll::Pending;
                     }
                 }
                 Act::Signal(k) => {
-                    let waiters = {
+                    // wakers stay registered (like a condition variable that is signalled again):
+                    // a task may be woken several times, by several actors, before it runs
+                    let waiters: Vec<(usize, Waker)> = {
                         let mut w = self.world.borrow_mut();
                         w.chans[k as usize].signalled = true;
-                        std::mem::take(&mut w.chans[k as usize].waiters)
+                        w.chans[k as usize].waiters.clone()
                     };
                     for (t, waker) in waiters {
-                        waker.wake();
+                        waker.wake_by_ref();
                         self.world.borrow_mut().model_wake(t);
                     }
                 }
@@ -284,7 +320,7 @@ struct Outcome {
 }
 
 /// Run one task system to completion under the monitor.
-fn run_system(scripts: &[Vec<Act>]) -> Outcome {
+fn run_system(scripts: &[Vec<Act>], batch: bool) -> Outcome {
     let exec: Executor<'static> = Executor::new();
     let world: W = Rc::new(RefCell::new(World {
         model: VecDeque::new(),
@@ -296,6 +332,8 @@ fn run_system(scripts: &[Vec<Act>]) -> Outcome {
         violations: Vec::new(),
         spawner: exec.spawner(),
         wakes: 0,
+        stale_pops: 0,
+        completions: 0,
     }));
     let mut receivers: Vec<(usize, Receiver<u64>)> = Vec::new();
     for s in scripts {
@@ -318,6 +356,40 @@ fn run_system(scripts: &[Vec<Act>]) -> Outcome {
     let max_steps = 10_000;
 
     let run_until_stalled = |world: &W, steps: &mut u64, trace: &mut Vec<u8>| {
+        if batch {
+            // drive with Executor::run_until_stalled(); the per-poll checks run inside the futures
+            let (c0, s0) = {
+                let w = world.borrow();
+                (w.completions, w.stale_pops)
+            };
+            world.borrow_mut().polled.clear();
+            let n = exec.run_until_stalled();
+            let mut w = world.borrow_mut();
+            *steps += w.polled.len() as u64;
+            for t in std::mem::take(&mut w.polled) {
+                trace.push(t as u8);
+            }
+            // whatever is left in the reference queue must be completed tasks (stale wakes)
+            while let Some(t) = w.model.pop_front() {
+                if w.tasks[t].done {
+                    w.stale_pops += 1;
+                } else {
+                    w.violations.push(format!(
+                        "run_until_stalled() returned although task {t} has been woken (lost wake-up)"
+                    ));
+                }
+            }
+            let expect = (w.completions - c0) + (w.stale_pops - s0);
+            if w.violations.is_empty() && n as u64 != expect {
+                w.violations.push(format!(
+                    "run_until_stalled() reported {n} completions, {expect} expected"
+                ));
+            }
+            if exec.wake_count() != 0 && w.violations.is_empty() {
+                w.violations.push("wake queue not empty after run_until_stalled()".into());
+            }
+            return;
+        }
         loop {
             if *steps > max_steps {
                 world
@@ -327,24 +399,27 @@ fn run_system(scripts: &[Vec<Act>]) -> Outcome {
                 return;
             }
             {
-                let w = world.borrow();
                 let wc = exec.wake_count();
-                if wc != w.model.len() {
-                    drop(w);
-                    let m = world.borrow().model.len();
+                let m = world.borrow().model.len();
+                if wc != m {
                     world.borrow_mut().violations.push(format!(
                         "wake_count() = {wc} but the reference queue holds {m} tasks"
                     ));
                 }
             }
-            let expected = world.borrow_mut().model.pop_front();
+            let head = world.borrow().model.front().copied();
+            let head_done = head.map(|t| world.borrow().tasks[t].done);
+            if head_done == Some(true) {
+                // a completed task woken through a stale waker: the executor pops it without polling
+                world.borrow_mut().model.pop_front();
+                world.borrow_mut().stale_pops += 1;
+            }
             world.borrow_mut().polled.clear();
-            let was_done = expected.map(|t| world.borrow().tasks[t].done);
             let r = exec.step();
             *steps += 1;
             let mut w = world.borrow_mut();
             let polled = std::mem::take(&mut w.polled);
-            match (expected, r) {
+            match (head, r) {
                 (None, None) => return,
                 (None, Some(_)) => {
                     w.violations.push(format!(
@@ -360,8 +435,7 @@ fn run_system(scripts: &[Vec<Act>]) -> Outcome {
                 }
                 (Some(t), Some(complete)) => {
                     trace.push(t as u8);
-                    if was_done == Some(true) {
-                        // a completed task woken through a stale waker: must not be polled
+                    if head_done == Some(true) {
                         if !polled.is_empty() {
                             w.violations
                                 .push(format!("completed task {t} was polled again: {polled:?}"));
@@ -436,22 +510,26 @@ fn run_system(scripts: &[Vec<Act>]) -> Outcome {
             check_stall(&world);
         }
     }
-    // phase 3: signal every channel from outside, one at a time
+    // phase 3: signal every channel from outside (step mode: one at a time with a run in between;
+    // batch mode: all at once, so that several woken tasks sit in the queue together)
     for k in 0..NCHAN {
         if !world.borrow().violations.is_empty() {
             break;
         }
-        let waiters = {
+        let waiters: Vec<(usize, Waker)> = {
             let mut w = world.borrow_mut();
             w.chans[k].signalled = true;
-            std::mem::take(&mut w.chans[k].waiters)
+            w.chans[k].waiters.clone()
         };
         if !waiters.is_empty() {
             stalls_with_waiters += 1;
         }
         for (t, waker) in waiters {
-            waker.wake();
+            waker.wake_by_ref();
             world.borrow_mut().model_wake(t);
+        }
+        if batch && k + 1 < NCHAN {
+            continue;
         }
         run_until_stalled(&world, &mut steps, &mut trace);
         if world.borrow().violations.is_empty() {
@@ -567,8 +645,15 @@ fn explore_space(ctx: &Ctx, name: &str, scripts: &[Vec<Act>], ntasks: usize) {
             let mut stalls = 0u64;
             for idx in c * chunk..((c + 1) * chunk).min(total) {
                 let sys = system_at(scripts, ntasks, idx);
-                let o = run_system(&sys);
-                polls += o.polls;
+                let ob = run_system(&sys, true);
+                for v in ob.violations {
+                    ctx.violation(
+                        sig(&v),
+                        format!("task system (one script per task), driven by run_until_stalled(): {}\n{v}", sys_to_string(&sys)),
+                    );
+                }
+                let o = run_system(&sys, false);
+                polls += o.polls + ob.polls;
                 wakes += o.wakes;
                 steps += o.steps;
                 stalls += o.stalls_with_waiters as u64;
@@ -626,9 +711,16 @@ fn random_systems(ctx: &Ctx, n: usize) {
                     (0..len).map(|_| *rng.pick(&alpha)).collect()
                 })
                 .collect();
-            let o = run_system(&sys);
+            let ob = run_system(&sys, true);
+            for v in ob.violations {
+                ctx.violation(
+                    sig(&v),
+                    format!("random task system, driven by run_until_stalled(): {}\n{v}", sys_to_string(&sys)),
+                );
+            }
+            let o = run_system(&sys, false);
             ctx.eval();
-            ctx.count("polls_observed", o.polls as i64);
+            ctx.count("polls_observed", (o.polls + ob.polls) as i64);
             ctx.count("wakes_observed", o.wakes as i64);
             ctx.count("executor_steps", o.steps as i64);
             if o.polls > sys.len() as u64 {
@@ -699,7 +791,7 @@ fn main() {
         let mut polls = 0u64;
         for idx in (shard..total).step_by(nshards) {
             let sys = system_at(&scripts, 2, idx);
-            let o = run_system(&sys);
+            let o = run_system(&sys, idx % 2 == 1);
             n += 1;
             polls += o.polls;
             if let Some(v) = o.violations.first() {
@@ -711,7 +803,7 @@ fn main() {
         let total3 = singles.len().pow(3);
         for idx in (shard..total3).step_by(nshards) {
             let sys = system_at(&singles, 3, idx);
-            let o = run_system(&sys);
+            let o = run_system(&sys, idx % 2 == 1);
             n += 1;
             polls += o.polls;
             if let Some(v) = o.violations.first() {
@@ -725,7 +817,7 @@ fn main() {
 
     util::install_panic_hook();
     let mut ctx = Ctx::new("C15", tier, seed);
-    ctx.rule = "task systems: one script per task over {YieldVal, YieldRef, YieldTwice, Wait(k), Signal(k), Spawn(child+await Receiver), DropClone, Stash(waker woken later from outside, also after completion)}; exhaustive ordered tuples of scripts for the listed spaces + random larger systems (3-8 tasks, <=8 actions, 3 channels); every Executor::step() is compared with a reference FIFO queue with duplicate suppression (which task is polled, wake_count(), completion flag), instrumented futures flag poll-after-ready and re-entrant polls, stalls are checked for genuinely waiting tasks, results must be delivered exactly once; evaluations = task systems run; distinct_nontrivial = distinct (system, poll order) pairs in which some task was polled more than once".into();
+    ctx.rule = "task systems: one script per task over {YieldVal, YieldRef, YieldTwice, Wait(k), Signal(k), Spawn(child+await Receiver), DropClone, Stash(waker woken later from outside, also after completion)}; exhaustive ordered tuples of scripts for the listed spaces + random larger systems (3-8 tasks, <=8 actions, 3 channels); each system is driven once by step() and once by run_until_stalled(); every poll is compared with a reference FIFO queue with duplicate suppression (which task is polled, wake_count(), completion flag), instrumented futures flag poll-after-ready and re-entrant polls, stalls are checked for genuinely waiting tasks, results must be delivered exactly once; evaluations = task systems run; distinct_nontrivial = distinct (system, poll order) pairs in which some task was polled more than once".into();
     let quick = ctx.quick();
     // exhaustive spaces
     let a1 = alphabet(1, true); // 8 actions
